@@ -63,6 +63,7 @@ func init() {
 			{ID: "C02.R19", Floor: 1, Run: marshalAllPaths, Text: "entity JSON encodes id and generation on every path (= C17.R8): a fast path for id 0 flattens the pool's sentinel generation"},
 			{ID: "C02.R20", Floor: 4, Run: queryIntParamsRangeChecked, Text: "batch sizes are not truncated (= C10.R15): creations minus removals is the number of alive entities for every batch size"},
 			{ID: "C02.R21", Floor: 1, Run: recycleAfterTableEvents, Text: "handles are recycled only after the removal events of their table were delivered: no notification can follow a Recycle before the table is emptied"},
+			{ID: "C02.R22", Floor: 5, Run: growCopyWholeSource, Text: "growth copies the whole old slice: in a function that allocates a slice, the source of a builtin copy is cut to nothing but its own length; the world index is not a dense prefix of alive ids"},
 		},
 	})
 }
